@@ -380,7 +380,12 @@ def load_known():
     f = VERIF / "known_findings.json"
     if not f.exists():
         return []
-    return json.loads(f.read_text()).get("findings", [])
+    out = json.loads(f.read_text()).get("findings", [])
+    d = VERIF / "known_findings.d"
+    if d.is_dir():
+        for g in sorted(d.glob("*.json")):
+            out += json.loads(g.read_text()).get("findings", [])
+    return out
 
 
 def finish(ctx: Ctx, level: str, checker_cmd: str, rule: str, explanation: str = "") -> int:
